@@ -31,13 +31,13 @@ type Program struct {
 	ByPath map[string]*packages.Package
 	SSA    *ssa.Program
 	// All module functions (incl. anonymous), sorted by name.
-	Funcs  []*ssa.Function
-	byName map[string]*ssa.Function
-	cg     *callgraph.Graph
-	chaCG  *callgraph.Graph
-	Overlay map[string][]byte
+	Funcs    []*ssa.Function
+	byName   map[string]*ssa.Function
+	cg       *callgraph.Graph
+	chaCG    *callgraph.Graph
+	Overlay  map[string][]byte
 	LoadErrs []string
-	la *LockAnalysis
+	la       *LockAnalysis
 }
 
 type LoadConfig struct {
